@@ -3,7 +3,7 @@ import random
 from common import *
 
 ID = "C05"
-THEOREM_FILES = ["Summer.Props.C05", "Summer.Props.C01Rates"]
+THEOREM_FILES = ["Summer.Props.C05", "Summer.Props.C01Rates", "Summer.Props.C05Source"]
 TASK = "task"
 RULE = ("programs forced to contain infection flows, with 0-3 mixing matrices (static / parameterised / time-varying), optional strain "
         "stratification, infectiousness adjustments, full and partial stratifications; one_step at states with positive category "
